@@ -44,7 +44,11 @@ RecList(i, ch, sc, wc) ==
     IN DSeq(upok \cup dnok \cup self \cup wl)
 ReciprocalInputs == {[i \in Cells |-> RecList(i, ch, sc, wc)] : ch \in PairChoice, sc \in SelfChoice, wc \in WallChoice}
 
-Inputs == IF InputMode = "arbitrary" THEN ArbitraryInputs ELSE ReciprocalInputs
+\* one fixed reciprocal input (a ring with walls and one self-image pair): for exploring schedules with more cells
+RingInputs == {[i \in Cells |-> DSeq({Ngb((i % N) + 1, NoShift, TRUE, TRUE), Ngb(((i + N - 2) % N) + 1, NoShift, TRUE, TRUE),
+                                       WallD(TRUE, TRUE)} \cup (IF i = 1 THEN {Ngb(1, SA, TRUE, TRUE), Ngb(1, SB, TRUE, TRUE)} ELSE {}))]}
+
+Inputs == IF InputMode = "arbitrary" THEN ArbitraryInputs ELSE IF InputMode = "ring" THEN RingInputs ELSE ReciprocalInputs
 
 Init ==
     /\ mask \in (IF HasMask THEN [Cells -> BOOLEAN] ELSE {[i \in Cells |-> TRUE]})
@@ -56,14 +60,14 @@ Init ==
 
 \* a worker picks up any index not yet claimed (work stealing: no order is promised)
 Claim(t, i) ==
-    /\ pc = "build" /\ running[t] = 0 /\ i \notin claimed
+    /\ pc = "build" /\ ClaimPre(claimed, running, t, i)
     /\ claimed' = claimed \cup {i}
     /\ running' = [running EXCEPT ![t] = i]
     /\ UNCHANGED <<mask, cps, slot, order, pc, faces, conn, offs>>
 
 \* ... and writes the result into its own slot only; the value is a pure function of (i, shared input)
 Finish(t) ==
-    /\ pc = "build" /\ running[t] # 0
+    /\ pc = "build" /\ FinishPre(running, t, running[t])
     /\ LET i == running[t]
        IN /\ slot' = [slot EXCEPT ![i] = IF mask[i] THEN CellFaces(i, cps[i], mask, HasMask) ELSE <<>>]
           /\ order' = Append(order, i)
@@ -102,10 +106,10 @@ InvListedByLeft == Done => ListedByLeft(faces, conn)
 InvListedByRight == Done => ListedByRightIffUnshifted(faces, conn)
 InvListedByNoOther == Done => ListedByNoOther(N, faces, conn)
 InvNoUnselectedLeft == Done => NoUnselectedLeft(faces, mask)
-InvStoredAtMostOnce == (Done /\ InputMode = "reciprocal") => StoredAtMostOnce(faces)
-InvStoredOnce == (Done /\ InputMode = "reciprocal") => StoredOnce(N, mask, cps, faces)
-InvNeighbourIds == (Done /\ InputMode = "reciprocal") => NeighbourIdsExact(N, faces, conn)
-InvReciprocalInput == InputMode = "reciprocal" => Reciprocal(N, mask, cps)
+InvStoredAtMostOnce == (Done /\ InputMode # "arbitrary") => StoredAtMostOnce(faces)
+InvStoredOnce == (Done /\ InputMode # "arbitrary") => StoredOnce(N, mask, cps, faces)
+InvNeighbourIds == (Done /\ InputMode # "arbitrary") => NeighbourIdsExact(N, faces, conn)
+InvReciprocalInput == InputMode # "arbitrary" => Reciprocal(N, mask, cps)
 \* partial = restriction: the faces of a selected cell towards selected cells do not depend on the mask's other entries
 \* sym = non-sym minus what a constructed lower-index unshifted neighbour already reported
 SymIsNonSymMinusTreated ==
